@@ -158,8 +158,8 @@ def run(ctx):
         rule="flavour x multiset of payload sources (queued, adopted from outside / thread / "
              "other coroutine flavour, service, executed from outside / thread / other flavour) "
              "x blocked thread payloads x every schedule within the deviation bound, with a "
-             "scheduling point inside every synchronous section; non-trivial = more than one "
-             "schedule executed",
+             "scheduling point inside every synchronous section; non-trivial = a schedule with a deviation"
+             " (all explored schedules are distinct)",
         bounds={"deviation_bound": bound, "granularity": "synchronisation operations + one "
                 "point inside each section"},
     )
